@@ -86,7 +86,7 @@ EXPORT errno_t _memrchr_s_chk(const void *restrict dest, rsize_t dmax,
 #endif
 {
     if (unlikely(resultp == NULL)) {
-        invoke_safe_str_constraint_handler("memrchr_s: resultp is null", NULL,
+        invoke_safe_mem_constraint_handler("memrchr_s: resultp is null", NULL,
                                            ESNULLP);
         return (ESNULLP);
     }
@@ -101,7 +101,7 @@ EXPORT errno_t _memrchr_s_chk(const void *restrict dest, rsize_t dmax,
         CHK_DEST_MEM_OVR("memrchr_s", destbos)
     }
     if (unlikely(ch > 255)) {
-        invoke_safe_str_constraint_handler("memrchr_s: ch exceeds max", NULL,
+        invoke_safe_mem_constraint_handler("memrchr_s: ch exceeds max", NULL,
                                            ESLEMAX);
         return (ESLEMAX);
     }
